@@ -57,3 +57,12 @@ package kotel
 // postconditions (keys kept, values of headers with other keys kept) by induction on the position of the
 // first header with key k2 (a least-element argument), which the SMT back ends do not perform; the
 // per-header frame is what is proved.
+
+// The consumer hook: the trace context the producer injected into the record's headers is what the receive span is
+// tied to - both the parent handed to tracer.Start and, with LinkSpans, the linked span context are taken from the
+// context EXTRACTED through the carrier, not from the record's own (pre-extraction) context.
+//@ func (t *Tracer) OnFetchRecordBuffered(r *kgo.Record)
+//@   prop C37
+//@   site call SpanContextFromContext#0 assert [link-taken-from-the-extracted-context] arg0 == ctx && reached($Extract0) && ctx == $Extract0
+//@   site call Start#0 assert [receive-span-started-under-the-extracted-context] arg0 == ctx && reached($Extract0) && ctx == $Extract0
+//@   site call Extract#0 assert [extracted-through-the-records-carrier] reached($NewRecordCarrier0)
